@@ -497,7 +497,26 @@ func TestC10(t *testing.T) {
 	drv.Prop(t, rec, "histories", 600, 50000, func(t *rapid.T) c10Case {
 		c := c10Case{Poison: rapid.SampledFrom([]byte{0x00, 0xff, 0xa5, 0x5a}).Draw(t, "poison"), Hunt: rapid.Bool().Draw(t, "hunt")}
 		for i := rapid.IntRange(2, 25).Draw(t, "nsteps"); i > 0; i-- {
-			c.Steps = append(c.Steps, c10GenStep(t, w)...)
+			steps := c10GenStep(t, w)
+			for k := range steps {
+				// a datagram whose UDP length field announces more than was received (and, for half of them, whose
+				// tail is cut off): what lies behind the frame in the receive buffer must not become part of it
+				if d := ref.Decode(steps[k].Data); steps[k].K == "pkt" && d.OffUDP > 0 && d.OffIP4 > 0 && !d.Err && rapid.IntRange(0, 7).Draw(t, "overstateUDP") == 0 {
+					b := append([]byte(nil), steps[k].Data...)
+					if cut := rapid.SampledFrom([]int{0, 0, 1, 4, 30, 60}).Draw(t, "cutTail"); cut > 0 && len(b)-cut > d.OffUDP+8 {
+						b = b[:len(b)-cut]
+						tl := len(b) - d.OffIP4
+						b[d.OffIP4+2], b[d.OffIP4+3] = byte(tl>>8), byte(tl)
+						b[d.OffIP4+10], b[d.OffIP4+11] = 0, 0
+						cs := ref.Checksum(b[d.OffIP4 : d.OffIP4+20])
+						b[d.OffIP4+10], b[d.OffIP4+11] = byte(cs>>8), byte(cs)
+					}
+					ul := len(b) - d.OffUDP + rapid.SampledFrom([]int{1, 8, 40, 300, 1000}).Draw(t, "udpExtra")
+					b[d.OffUDP+4], b[d.OffUDP+5] = byte(ul>>8), byte(ul)
+					steps[k].Data = b
+				}
+			}
+			c.Steps = append(c.Steps, steps...)
 		}
 		return c
 	}, func(tb drv.TB, c c10Case) { c10Run(tb, rec, "histories", c) })
